@@ -1157,7 +1157,7 @@ func c07genOps(r *rand.Rand, tier string, emit0 func(string)) {
 	// random trees
 	count := 600
 	if tier == "thorough" {
-		count = 30000
+		count = 12000
 	}
 	for i := 0; i < count; i++ {
 		g := &c07gen{r: r, left: 6 + r.Intn(30)}
